@@ -6,7 +6,7 @@
 #include "nmtools/array/view/expand.hpp"
 // per-element repeats: bounded run-time list (one entry per element along axis), run-time axis
 #define REPEAT_EACH(D) KERNEL int K(k_repeat_each##D)(ARGS_IN, const size_t* reps, size_t nr, int axis, ARGS_OUT){ MK(D); return OBSV(view::repeat(a, mk_sv<size_t,4>(reps,nr), axis)); }
-FOR_DIMS(REPEAT_EACH)
+FOR_DIMS4(REPEAT_EACH)
 // two axes: (shift list, axis list) and (scalar shift, axis list)
 #define ROLL2(D) KERNEL int K(k_roll_axes##D)(ARGS_IN, const int* shift, const int* axes, ARGS_OUT){ MK(D); return OBSV(view::roll(a, mk_arr<int,2>(shift), mk_arr<int,2>(axes))); } \
   KERNEL int K(k_roll_axes_scalar##D)(ARGS_IN, int shift, const int* axes, ARGS_OUT){ MK(D); return OBSV(view::roll(a, shift, mk_arr<int,2>(axes))); } \
